@@ -92,8 +92,9 @@ CLAIMED = {
    technique='contract-based deductive verification of run_program and the entry functions + bounded native stand-in for _Subprocess.run / main exit status'),
  'C18': dict(level='other', design='6.C18',
    text='Log-input half by contract: the reading loop raises nothing but UnicodeDecodeError and only for a strict decoder; all three input modes must establish a total decoder - this obligation failed at all three call sites on the pinned tree (undecodable bytes aborted the tool), a genuine defect repaired by a fix: commit; connections are closed by cleanup. '
-        'The matcher half (parse raises only RuntimeError; matches / str / simplify raise nothing) and the command half (process_command) are not yet under contract.',
-   note='Partial: see text. MemoryError, signals, broken output pipes are outside the claim.',
+        'Matcher half: every Matcher.matches override is proved to raise nothing and write nothing (defining contracts shared with C05); that matcher.parse raises only RuntimeError and that an accepted matcher can be printed, simplified and evaluated is a bounded stand-in (generated strings over the matcher alphabet, arbitrary Unicode, documented-grammar expressions). '
+        'Command half: Controller.process_command on generated printable command lines (all command words, abbreviations, wl prefixes, arguments) raises nothing and responds - bounded stand-in.',
+   note='Mixed: discharged obligations for the reading loop, the three input modes and matches(); bounded stand-ins (not proof) for the recursive-descent parser, str/simplify and command dispatch. Escape sequences in typed commands are outside C18 (printable lines) - see C17. MemoryError, signals, broken output pipes are outside the claim.',
    technique='contract-based deductive verification (raises clauses, reader precondition at call sites); native replay'),
  'C09': dict(level='proof', design='6.C09',
    text='Loop contract of extract_message over the signature: the slot index equals the number of type codes seen so far (version digits and ? skipped), one argument per type code, arrays have size/4 integer elements read in order, name / direction / target as held by the closure - discharged obligations. That argument t is built from union member <code> of slot t with the right kind, value and declared interface is a native-only clause: evaluated on the real function over generated closures (bounded stand-in, not proved; its invariant did not discharge within the solver budget). '
